@@ -191,6 +191,10 @@ class Translator:
         """`self` / `samples` / `self.xp` style prefixes -> Obj or marker"""
         if isinstance(e, ast.Name) and isinstance(c.env.get(e.id), Obj):
             return c.env[e.id]
+        if isinstance(e, ast.Attribute):
+            o = self.self_obj(c, e.value)
+            if o is not None and isinstance(c.env.get(f"{o.prefix}{e.attr}"), Obj):
+                return c.env[f"{o.prefix}{e.attr}"]
         return None
 
     def e_Attribute(self, c, e):
@@ -278,7 +282,7 @@ class Translator:
             raise Untranslatable(f"operator {ast.unparse(e)}")
         if isinstance(a, Nt) and isinstance(b, Nt):
             if op == "/":
-                return Sc(f"((({a.s} : Nat) : α) / (({b.s} : Nat) : α))")
+                return Sc(f"({self.to_scalar(a).s} / {self.to_scalar(b).s})")
             return Nt(f"({a.s} {op} {b.s})")
         if op == "%":
             raise Untranslatable(f"float modulo {ast.unparse(e)}")
@@ -376,7 +380,21 @@ class Translator:
         return Bo("(" + sym.join(self.as_boolean(v).s for v in vals) + ")", prop=False)
 
     def e_IfExp(self, c, e):
-        cond = self.to_bool(c, self.expr(c, e.test))
+        tv = None
+        try:
+            tv = self.expr(c, e.test)
+        except Untranslatable:
+            raise
+        if isinstance(tv, Vec):
+            # `v[-1] if v else default`: the last element of a possibly empty list
+            b = e.body
+            if (isinstance(b, ast.Subscript) and isinstance(b.slice, ast.UnaryOp) and isinstance(b.slice.op, ast.USub)
+                    and isinstance(b.slice.operand, ast.Constant) and b.slice.operand.value == 1
+                    and ast.dump(b.value) == ast.dump(e.test)):
+                d = self.to_scalar(self.expr(c, e.orelse))
+                return Sc(f"(match ({paren(self.emit_vec(tv))}).getLast? with | some last => last | none => {d.s})")
+            raise Untranslatable(f"truthiness of a vector: {ast.unparse(e)}")
+        cond = self.to_bool(c, tv)
         cs = self.as_prop(cond).s
         a, b = self.expr(c, e.body), self.expr(c, e.orelse)
         if b == ("nan",):
@@ -640,11 +658,17 @@ class Translator:
         return f"let {lname} := {val.s}\n" + k(c)
 
     def assigned_names(self, stmts):
+        """names (and `obj.attr` keys) stored to by the statements, in order of first appearance"""
         out = []
         for st in stmts:
             for n in ast.walk(st):
-                if isinstance(n, ast.Name) and isinstance(n.ctx, ast.Store) and n.id not in out:
-                    out.append(n.id)
+                key = None
+                if isinstance(n, ast.Name) and isinstance(n.ctx, ast.Store):
+                    key = n.id
+                elif isinstance(n, ast.Attribute) and isinstance(n.ctx, ast.Store) and isinstance(n.value, ast.Name):
+                    key = f"{n.value.id}.{n.attr}"
+                if key is not None and key not in out:
+                    out.append(key)
         return out
 
     def has_return(self, stmts):
@@ -714,33 +738,63 @@ class Translator:
             raise Untranslatable(f"truthiness of a number: {ast.unparse(test)}")
         return self.as_prop(self.to_bool(c, v)).s
 
+    def option_test(self, c, test):
+        """`x is None` / `x is not None` on an optional variable -> (name, none_first)"""
+        if (isinstance(test, ast.Compare) and len(test.ops) == 1 and isinstance(test.ops[0], (ast.Is, ast.IsNot))
+                and isinstance(test.comparators[0], ast.Constant) and test.comparators[0].value is None
+                and isinstance(test.left, ast.Name) and isinstance(c.env.get(test.left.id), (ON, Op))):
+            return test.left.id, isinstance(test.ops[0], ast.Is)
+        return None
+
     def if_stmt(self, c, st, rest, k):
-        cs = self.cond(c, st.test)
+        opt = self.option_test(c, st.test)
+        c1, c2 = c.child(), c.child()
+        if opt is not None:
+            name, none_first = opt
+            some_val = Nt(name) if isinstance(c.env[name], ON) else Sc(name)
+            (c1 if none_first else c2).env[name] = ("none",)
+            (c2 if none_first else c1).env[name] = some_val
+            if none_first:
+                fmt = lambda a, b: f"match {name} with\n| none =>\n{indent(a)}\n| some {name} =>\n{indent(b)}"
+            else:
+                fmt = lambda a, b: f"match {name} with\n| some {name} =>\n{indent(a)}\n| none =>\n{indent(b)}"
+        else:
+            cs = self.cond(c, st.test)
+            fmt = lambda a, b: f"if {cs} then\n{indent(a)}\nelse\n{indent(b)}"
         if self.has_return(st.body) or self.has_return(st.orelse) or not rest or c.tail_dup:
             # duplicate the continuation into both branches
-            c1, c2 = c.child(), c.child()
             a = self.block(c1, list(st.body) + list(rest), k)
             b = self.block(c2, list(st.orelse) + list(rest), k)
-            return f"if {cs} then\n{indent(a)}\nelse\n{indent(b)}"
-        names = [n for n in self.assigned_names(list(st.body) + list(st.orelse))]
-        live = [n for n in names if n in c.env or (n in self.assigned_names(st.body) and n in self.assigned_names(st.orelse))]
+            return fmt(a, b)
+        names = self.assigned_names(list(st.body) + list(st.orelse))
+        in_body, in_else = self.assigned_names(st.body), self.assigned_names(st.orelse)
+        live = [n for n in names if n in c.env or (n in in_body and n in in_else)]
         if not live:
             raise Untranslatable(f"if-statement without effect: {ast.unparse(st)[:60]}")
+        ln = lambda key: key.replace(".", "_")
+
         def tail(cc):
-            vals = [self.emit_any(cc.env[n]) for n in live]
+            vals = []
+            for n in live:
+                v = cc.env[n]
+                if v == ("none",):
+                    raise Untranslatable(f"`{n}` may still be None after {ast.unparse(st)[:60]}")
+                vals.append(self.emit_any(v))
             return vals[0] if len(vals) == 1 else "(" + ", ".join(vals) + ")"
-        c1, c2 = c.child(), c.child()
+
         a = self.block(c1, list(st.body), tail)
         b = self.block(c2, list(st.orelse), tail)
         for n in live:
             t1, t2 = c1.env.get(n), c2.env.get(n)
             if type(t1) is not type(t2):
                 raise Untranslatable(f"`{n}` has different kinds in the two branches of {ast.unparse(st)[:60]}")
-            c.env[n] = type(t1)(n) if not isinstance(t1, Vec) else Vec.var(n)
+            c.env[n] = type(t1)(ln(n)) if not isinstance(t1, Vec) else Vec.var(ln(n))
             if isinstance(t1, Bo):
-                c.env[n] = Bo(n, prop=False)
-        pat = live[0] if len(live) == 1 else "(" + ", ".join(live) + ")"
-        return f"let {pat} := (if {cs} then\n{indent(a)}\nelse\n{indent(b)})\n" + self.block(c, rest, k)
+                c.env[n] = Bo(ln(n), prop=False)
+            if "." in n and n not in c.outputs:
+                c.outputs.append(n)
+        pat = ln(live[0]) if len(live) == 1 else "(" + ", ".join(ln(n) for n in live) + ")"
+        return f"let {pat} := ({fmt(a, b)})\n" + self.block(c, rest, k)
 
     def while_stmt(self, c, st, rest, k):
         if st.orelse or self.has_return(st.body):
@@ -874,14 +928,20 @@ class Translator:
         env: dict = {}
         params: list = []          # (lean name, kind, origin)
         # objects (`self`, `samples`): their fields become parameters
-        for oname, (cls, prefix) in spec.get("objects", {}).items():
-            env[oname] = Obj(cls, f"{oname}.")
+        def add_obj(path, cls, prefix, top):
+            env[path] = Obj(cls, f"{path}.")
             for fname, kind in self.classes[cls]:
                 ln = f"{prefix}{fname}".replace("[", "_").replace("]", "")
-                key = f"{oname}.{fname}"
-                env[key] = {"S": Sc(ln), "V": Vec.var(ln), "N": Nt(ln), "B": Bo(ln, prop=False), "ON": ON(ln)}[kind]
-                origin = ("self", fname) if oname == "self" else ("objfield", oname, fname)
+                key = f"{path}.{fname}"
+                if kind.startswith("O:"):
+                    add_obj(key, kind[2:], f"{ln}_", top)
+                    continue
+                env[key] = {"S": Sc(ln), "V": Vec.var(ln), "N": Nt(ln), "B": Bo(ln, prop=False), "ON": ON(ln), "OS": Op(ln)}[kind]
+                origin = ("self", fname) if (top == "self" and path == "self") else ("objfield", path, fname)
                 params.append((ln, kind, origin))
+
+        for oname, (cls, prefix) in spec.get("objects", {}).items():
+            add_obj(oname, cls, prefix, oname)
         declared = spec.get("params", {})
         src_params = [a.arg for a in fn.args.args + fn.args.kwonlyargs]
         for pn in src_params:
@@ -925,7 +985,17 @@ class Translator:
                         cc.sh['ret_kind'] = "VB"
                         return v[1]
                     return self.emit_ret(cc, v)
-                raise Untranslatable("result spec")
+                items = []
+                for r_ in res:
+                    v = cc.env.get(r_)
+                    if v is None or v == ("none",):
+                        raise Untranslatable(f"result `{r_}` is not assigned on every path")
+                    items.append(v)
+                kinds = []
+                for v in items:
+                    kinds.append("V" if isinstance(v, Vec) else "B" if isinstance(v, Bo) else "S")
+                cc.sh['ret_kind'] = kinds
+                return "(" + ", ".join(self.emit_any(v) if not isinstance(v, Nt) else self.to_scalar(v).s for v in items) + ")"
         else:
             def final(cc):
                 if not cc.outputs:
@@ -948,7 +1018,7 @@ class Translator:
             ret_t = f"{sname} α"
             ret = "struct"
         elif isinstance(ret, list):
-            ret_t = " × ".join("α" if k == "S" else "List α" for k in ret)
+            ret_t = " × ".join({"S": "α", "V": "List α", "B": "Bool"}[k] for k in ret)
         else:
             ret_t = {"S": "α", "V": "List α", "VB": "List Bool", "OS": "Option α", "B": "Bool"}[ret]
         binders = " ".join(self.lean_binder(n, k) for n, k, _ in params)
@@ -977,6 +1047,11 @@ class Translator:
         """statement range of a larger function: from the first top-level assignment to `first` up to (excluding) the
         first top-level statement assigning `stop` (or through the last assignment to `last`)."""
         body = fn.body
+        if ex.get("if_break"):
+            for n in ast.walk(fn):
+                if isinstance(n, ast.If) and len(n.body) == 1 and isinstance(n.body[0], ast.Break) and not n.orelse:
+                    return [ast.Assign([ast.Name(ex["if_break"], ast.Store())], n.test)]
+            raise Untranslatable("no `if ...: break` statement")
         if "within" in ex:               # descend into the first compound statement of that type containing `first`
             for kind in ex["within"]:
                 found = None
@@ -1000,7 +1075,16 @@ class Translator:
                     if isinstance(n, ast.Name) and n.id == name:
                         return True
             return False
-        start = next((i for i, st in enumerate(body) if assigns(st, ex["first"])), None)
+        if "first_any" in ex:
+            start = next((i for i, st in enumerate(body) if any(
+                isinstance(n, ast.Name) and isinstance(n.ctx, ast.Store) and n.id == ex["first_any"] for n in ast.walk(st))), None)
+            ex = dict(ex, first=ex["first_any"])
+        elif "first_attr" in ex:
+            start = next((i for i, st in enumerate(body) if isinstance(st, ast.Assign)
+                          and any(ast.unparse(t) == ex["first_attr"] for t in st.targets)), None)
+            ex = dict(ex, first=ex["first_attr"])
+        else:
+            start = next((i for i, st in enumerate(body) if assigns(st, ex["first"])), None)
         if start is None:
             raise Untranslatable(f"no assignment to `{ex['first']}`")
         if "stop" in ex:
